@@ -14,10 +14,10 @@ t=$(cargo test --workspace --no-fail-fast --offline 2>&1); passed=$(echo "$t" | 
 echo "[with change] existing tests: $passed passed, $failed failed suites"
 demo_cmd > /tmp/confirm_${id}_with.log; rc_with=$?
 echo "[with change] demo exit=$rc_with"
-git stash push -q -- insim insim_core insim_pth insim_smx
+git checkout -q -- insim insim_core insim_pth insim_smx   # (no git stash: the stash is shared between worktrees)
 demo_cmd > /tmp/confirm_${id}_without.log; rc_without=$?
 echo "[without change] demo exit=$rc_without"
-git stash pop -q
+git apply --whitespace=nowarn /tmp/confirm_$id.patch
 ok=0
 if [ "$passed" -ge 58 ] && [ "$failed" -eq 0 ] && [ $rc_with -ne 0 ] && [ $rc_without -eq 0 ]; then ok=1; fi
 if [ $ok -eq 1 ]; then
